@@ -477,6 +477,7 @@ Proof.
   - cbn [fst]. split; [eapply WF_frame; [apply frame_poll_gone|exact H]|apply left_poll_gone; apply (wf_rinv _ H)].
   - cbn [fst]. split; [eapply WF_same; [| |exact H]; reflexivity|apply Left_same; reflexivity].
   - cbn [fst]. split; [eapply WF_same; [| |exact H]; reflexivity|apply Left_same; reflexivity].
+  - cbn [fst]. split; [exact H|apply Left_refl].
 Qed.
 
 Lemma WF_init maxw : WF (init maxw).
